@@ -417,6 +417,14 @@ def _degeneracy_map(model: Model, K: RuleResult):
                 return S("DIST")
             if ast.unparse(e.args[0]) == pe:
                 return S("ABSLAM")
+            # a difference of *sub-ranges* of the eigenvalues (evals[..., 1:] - evals[..., :-1]) compares neighbours only: it cannot be the
+            # all-pairs distance whatever is built from it afterwards - a distinct quantity, decided below; anything else stays uninterpreted
+            def _has_range(x_):
+                return any(isinstance(sb, ast.Subscript) and ast.unparse(sb.value) == pe and
+                           any(isinstance(el, ast.Slice) and (el.lower is not None or el.upper is not None)
+                               for el in (sb.slice.elts if isinstance(sb.slice, ast.Tuple) else [sb.slice])) for sb in ast.walk(x_))
+            if _has_range(e.args[0]):
+                return S("<|%s|>" % ast.unparse(e.args[0]).replace(" ", ""))
             raise Uninterpretable("abs of %s" % ast.unparse(e.args[0]))
         if isinstance(e, ast.Call) and isinstance(e.func, ast.Attribute) and e.func.attr == "unsqueeze":
             v = eval_expr(e.func.value, env, hook)
